@@ -319,12 +319,16 @@ class _CopyInternalsTraversal(HasTraversalDispatch):
         ]
 
     def visit_dml_values(self, attrname, parent, element, clone=_clone, **kw):
-        return {
-            (
-                clone(key, **kw) if hasattr(key, "__clause_element__") else key
-            ): clone(value, **kw)
-            for key, value in element.items()
-        }
+        return util.immutabledict(
+            {
+                (
+                    clone(key, **kw)
+                    if hasattr(key, "__clause_element__")
+                    else key
+                ): clone(value, **kw)
+                for key, value in element.items()
+            }
+        )
 
     def visit_dml_multi_values(
         self, attrname, parent, element, clone=_clone, **kw
